@@ -155,6 +155,33 @@ pub struct NormTree {
     pub reference: Box<dyn Fn(&str) -> String + Send + Sync>,
     /// texts of up to this many symbols are also normalised on a buffer that was used for another input before
     pub used_buffer_len: usize,
+    /// texts of up to this many symbols are also normalised behind long runs of unrelated characters whose length
+    /// (in characters and in bytes) lies around the powers of two from 64 to 1024 (thorough: 16384)
+    pub padded_len: usize,
+}
+
+/// (description, padding) - paddings of 1-, 3-byte and upper-case (general path) characters that are no table key
+fn paddings(thorough: bool) -> &'static Vec<(String, String)> {
+    static P: std::sync::OnceLock<Vec<(String, String)>> = std::sync::OnceLock::new();
+    static Q: std::sync::OnceLock<Vec<(String, String)>> = std::sync::OnceLock::new();
+    let bounds: &[usize] = if thorough { &[64, 128, 256, 512, 1024, 2048, 4096, 8192, 16384] } else { &[64, 128, 256, 512, 1024] };
+    (if thorough { &P } else { &Q }).get_or_init(|| {
+        let mut out: Vec<(String, String)> = Vec::new();
+        let mut seen = std::collections::HashSet::new();
+        for (unit, w) in [("z", 1usize), ("Z", 1), ("ぬ", 3)] {
+            for &b in bounds {
+                for d in 0..=4usize {
+                    // the text starts 3, 2, 1, 0 characters (bytes) before the boundary, or 1 behind it
+                    for n in [b + 1 - d, (b + 1 - d) / w] {
+                        if seen.insert((unit, n)) {
+                            out.push((format!("{} x {}", unit, n), unit.repeat(n)));
+                        }
+                    }
+                }
+            }
+        }
+        out
+    })
 }
 
 impl Space for NormTree {
@@ -188,6 +215,26 @@ impl Space for NormTree {
                         o.nontrivial = true;
                     }
                     o.observe(&obs);
+                }
+            }
+            if s.len() <= self.padded_len && !s.is_empty() {
+                for (what, pad) in paddings(self.padded_len > 2).iter() {
+                    let long = format!("{}{}", pad, text);
+                    let expected_long = (self.reference)(&long);
+                    o.evaluations += 1;
+                    match rewrite(&w.dict, &long) {
+                        Err(p) => o.fail(Failure::panic(&format!("rewrite {:?} behind {}", text, what), &p)),
+                        Ok(Err(e)) => o.fail(Failure::new("rewrite-error", format!("{:?} behind {}: {:?}", text, what, e))),
+                        Ok(Ok(obs)) => {
+                            if obs != expected_long {
+                                let tail = |t: &str| t.chars().rev().take(12).collect::<Vec<_>>().into_iter().rev().collect::<String>();
+                                o.fail(Failure::new(
+                                    "normalised-text-differs",
+                                    format!("[{} load {}] input {:?} behind the padding {}: normalised text ends in {:?} ({} bytes), reference ends in {:?} ({} bytes)", self.label, wi, text, what, tail(&obs), obs.len(), tail(&expected_long), expected_long.len()),
+                                ));
+                            }
+                        }
+                    }
                 }
             }
             if s.len() <= self.used_buffer_len && !s.is_empty() {
@@ -276,7 +323,7 @@ pub fn main(tier: Tier, replay: Option<String>) -> i32 {
         let bounds = tier.pick(TreeBounds { full_len: 4, ext_len: 7, max_special: 2 }, TreeBounds { full_len: 6, ext_len: 9, max_special: 2 });
         let b = bounds.to_json();
         jobs.push(job(
-            NormTree { label: format!("table-{}", name), worlds: vec![w1, w2], alpha: alpha.clone(), bounds, reference: Box::new(move |s| table.normalize(s)), used_buffer_len: 3 },
+            NormTree { label: format!("table-{}", name), worlds: vec![w1, w2], alpha: alpha.clone(), bounds, reference: Box::new(move |s| table.normalize(s)), used_buffer_len: 3, padded_len: tier.pick(2, 3) },
             Strategy::Dfs,
             Some(tier.pick(40, 1200)),
             b,
@@ -299,6 +346,7 @@ pub fn main(tier: Tier, replay: Option<String>) -> i32 {
                     bounds,
                     reference: Box::new(move |s| ref_prolonged(&mc, &repl, s)),
                     used_buffer_len: 3,
+                    padded_len: tier.pick(2, 3),
                 },
                 Strategy::Dfs,
                 Some(tier.pick(30, 900)),
@@ -335,6 +383,7 @@ pub fn main(tier: Tier, replay: Option<String>) -> i32 {
                         )
                     }),
                     used_buffer_len: 3,
+                    padded_len: tier.pick(2, 3),
                 },
                 Strategy::Dfs,
                 Some(tier.pick(30, 900)),
@@ -383,6 +432,7 @@ pub fn main(tier: Tier, replay: Option<String>) -> i32 {
                     t
                 }),
                 used_buffer_len: 3,
+                padded_len: tier.pick(2, 3),
             },
             Strategy::Dfs,
             Some(tier.pick(40, 900)),
